@@ -40,7 +40,7 @@ def main():
 
         name = type(exc).__name__
         out = {
-            "outcome": "harness-error" if name == "HarnessError" else "raise",
+            "outcome": "harness-error" if name in ("HarnessError", "NameError", "ImportError", "SyntaxError") else "raise",
             "detail": f"{name}: {exc}"[:500],
             "traceback": traceback.format_exc()[-1500:],
         }
